@@ -100,12 +100,14 @@ type ConnEvent struct {
 // RecConn wraps the server side of a pipe and records calls.
 type RecConn struct {
 	net.Conn
-	ID     int
-	remote net.Addr
-	clk    *Stamp
-	mu     sync.Mutex
-	Events []ConnEvent
-	Closes atomic.Int64
+	ID int
+	// AcceptSeq is the stamp taken when the listener's Accept returned this connection.
+	AcceptSeq atomic.Int64
+	remote    net.Addr
+	clk       *Stamp
+	mu        sync.Mutex
+	Events    []ConnEvent
+	Closes    atomic.Int64
 	// Yield is called (if set) before Read returns data, to widen interleavings.
 	Yield func(point string)
 }
@@ -146,6 +148,18 @@ func (c *RecConn) Close() error {
 // RemoteAddr is unique per connection.
 func (c *RecConn) RemoteAddr() net.Addr { return c.remote }
 
+// FirstClose returns the stamp of the first server-side Close (0 if none).
+func (c *RecConn) FirstClose() int64 {
+	c.mu.Lock()
+	defer c.mu.Unlock()
+	for _, e := range c.Events {
+		if e.Op == "close" {
+			return e.Seq
+		}
+	}
+	return 0
+}
+
 // ServerCloses reports how often the server closed this connection.
 func (c *RecConn) ServerCloses() int { return int(c.Closes.Load()) }
 
@@ -171,6 +185,9 @@ func (l *MemListener) Accept() (net.Conn, error) {
 	select {
 	case c := <-l.ch:
 		l.Accepts.Add(1)
+		if rc, ok := c.(*RecConn); ok {
+			rc.AcceptSeq.Store(l.Clk.Tick())
+		}
 		return c, nil
 	case <-l.done:
 		return nil, errors.New("verif: listener closed")
